@@ -250,13 +250,22 @@ theorem openStep_keep1 (cfg : PartCfg) (s s' : DC) (x : Xml) (c : Bool) (roots :
   · exact wt _ (fun t ht => insertNewRun_keep1 cfg.html s t _ ht) r h
   · have := pure_ok h; cases this; exact Keep.refl 1 s
 
-theorem closeStep_keep1 (cfg : PartCfg) (s s' : DC) (x : Xml) (h : closeStep cfg s x = .ok s') : Keep 1 s s' := by
-  unfold closeStep at h
+theorem flushImplicit_keep1 (s s' : DC) (d : Option Nat) (h : s.flushImplicit d = .ok s') : Keep 1 s s' := by
+  rcases flushImplicit_cases s s' d h with e | e
+  · subst e; exact Keep.refl 1 _
+  · exact concludePar_keep1 s s' e
+
+theorem closeStepCore_keep1 (cfg : PartCfg) (s s' : DC) (x : Xml) (h : closeStepCore cfg s x = .ok s') : Keep 1 s s' := by
+  unfold closeStepCore at h
   split at h
   · exact concludePar_keep1 s s' h
   · exact commenceRun_keep1 cfg.html s s' none h
   · exact closeTableCell_keep1 cfg.dup s s' x h
   · have := pure_ok h; subst this; exact Keep.refl 1 s
+
+theorem closeStep_keep1 (cfg : PartCfg) (s s' : DC) (x : Xml) (h : closeStep cfg s x = .ok s') : Keep 1 s s' := by
+  obtain ⟨s0, h0, h⟩ := closeStep_split cfg s s' x h
+  exact (flushImplicit_keep1 s s0 _ h0).trans (closeStepCore_keep1 cfg s0 s' x h)
 
 /-! ## the walk -/
 
@@ -281,6 +290,9 @@ theorem walk_slot1 (cfg : PartCfg) (num : Dict Str (List NumAttr)) :
   | .elem i p t m a tx tl ks, c, s, s', hl, h => by
     simp only [walk] at h
     obtain ⟨s1, h1, h⟩ := bind_ok h
+    unfold DC.setCaretOpen at h1
+    obtain ⟨s0, h0, h1⟩ := bind_ok h1
+    have k0 := flushImplicit_keep1 s s0 _ h0
     obtain ⟨roots, _, h⟩ := bind_ok h
     obtain ⟨⟨s2, rec⟩, h2, h⟩ := bind_ok h
     obtain ⟨s3, h3, h⟩ := bind_ok h
@@ -291,7 +303,7 @@ theorem walk_slot1 (cfg : PartCfg) (num : Dict Str (List NumAttr)) :
     · -- an element of depth 1: whatever happened inside, closing it clears slot 1
       rw [hd] at h1 h5
       unfold DC.setCaret at h1 h5
-      have l1 := (setCaretAux_writes 8 s s1 1 _ hl h1).2
+      have l1 := ((setCaretAux_writes 8 s0 s1 1 _ (by rw [k0.2]; exact hl) h1).2).trans k0.2
       have l3 : s3.lineage.length = s2.lineage.length := by
         simp only at h3
         split at h3
@@ -300,7 +312,7 @@ theorem walk_slot1 (cfg : PartCfg) (num : Dict Str (List NumAttr)) :
       have hl4 : 1 < s4.lineage.length := by rw [k4.2, l3, k2.2, l1]; exact hl
       have w := setCaretAux_writes 8 s4 s' 1 none hl4 h5
       exact ⟨by rw [w.2, k4.2, l3, k2.2, l1], Or.inr w.1⟩
-    · have r1 : Slot1Rel s s1 := Slot1Rel.of_keep (setCaret_slot 1 s s1 _ _ hd h1)
+    · have r1 : Slot1Rel s s1 := Slot1Rel.of_keep (k0.trans (setCaret_slot 1 s0 s1 _ _ hd h1))
       have hl2 : 1 < s2.lineage.length := by rw [k2.2, r1.1]; exact hl
       have r3 : Slot1Rel s2 s3 := by
         simp only at h3
@@ -348,23 +360,26 @@ namespace D2P
 depth, merged in any way —, content controls, anything), then a paragraph that is not in a cell and
 encloses no other paragraph.  If the register's table slot was clear before `pre`, the record of
 that paragraph does not say "tbl": a paragraph outside every table never reports a table lineage,
-whatever tables precede it. -/
+whatever tables precede it. (`s0` is `s1` after a pending implicit paragraph — stray inline content
+at the end of `pre` — has been concluded, which opening the paragraph does first.) -/
 theorem C05_free_lineage_body (cfg : PartCfg) (num : Dict Str (List NumAttr)) (pre : List Xml)
     (i : Nat) (p : Option Str) (t : QName) (m : NsMap) (a : List (QName × Str)) (tx tl : Option Str) (ks : List Xml)
     (hx : (Xml.elem i p t m a tx tl ks).ptag = paragraphTag) (hk : flatInlineL ks = true)
     (s s1 s' : DC) (hl : 1 < s.lineage.length) (hs : s.lineage[1]? = some none)
     (h1 : walkL cfg num false s pre = .ok s1) (h2 : walk cfg num false s1 (.elem i p t m a tx tl ks) = .ok s') :
-    ∃ par, leafParsL s'.root = leafParsL s1.root ++ [par] ∧ par.elem = some i ∧ par.lineage[1]? = some none := by
+    ∃ s0 par, s1.flushImplicit (some 4) = .ok s0 ∧
+      leafParsL s'.root = leafParsL s0.root ++ [par] ∧ par.elem = some i ∧ par.lineage[1]? = some none := by
   -- after `pre` the table slot is what it was, or cleared: clear in both cases
   obtain ⟨hlen, hrel⟩ := walkL_slot1 cfg num pre false s s1 hl h1
   have hs1 : s1.lineage[1]? = some none := by
     rcases hrel with h | h
     · rw [h]; exact hs
     · exact h
-  obtain ⟨par, _, _, e1, _, _, _, e5, _, _, _, _, _, _, hfree⟩ := walk_paragraph cfg num false s1 s' i p t m a tx tl ks hx hk h2
+  obtain ⟨s0, h0, par, _, _, e1, _, _, _, e5, _, _, _, _, _, _, hfree⟩ := walk_paragraph_gen cfg num false s1 s' i p t m a tx tl ks hx hk h2
+  have k0 := flushImplicit_keep1 s1 s0 _ h0
   obtain ⟨sa, sb, ha, hb, hlin⟩ := hfree rfl
-  have ka := setCaret_slot 1 s1 sa (some 4) _ (by simp) ha
+  have ka := setCaret_slot 1 s0 sa (some 4) _ (by simp) ha
   have kb := setCaret_slot 1 sa sb (some 4) _ (by simp) hb
-  exact ⟨par, e1, e5, by rw [hlin, kb.1, ka.1]; exact hs1⟩
+  exact ⟨s0, par, h0, e1, e5, by rw [hlin, kb.1, ka.1, k0.1]; exact hs1⟩
 
 end D2P
